@@ -1,4 +1,4 @@
 package main
 
 
-func enums(e *emitter)   { panic("not built yet") }
+
